@@ -158,6 +158,8 @@ CV1 = SObj(
 )
 RS = SObj("dataclass", "RS", (Fld("r", INT), Fld("g", INT, has_default=True, default=0)), serializer=Conv("rs_str", Ref("RS"), STR))
 RS2 = SObj("dataclass", "RS2", (Fld("r", INT), Fld("g", INT, has_default=True, default=0)), serializer=Conv("rs_a", Ref("RS2"), A))
+# "All serializers are naturally inherited"
+RSS = SObj("dataclass", "RSS", RS.fields, base="RS", redecorate=False, serializer=RS.serializer)
 CV2 = SObj("dataclass", "CV2", (SFld("c", RS), SFld("cs", Coll("list", RS), factory="list"), SFld("d", Opt(RS2), has_default=True, default=None)))
 DYNS = [
     Dyn(A, C_PAIR),
@@ -173,9 +175,24 @@ DYNS = [
 ]
 # aliaser / class aliaser / flatten with the serialization features
 KS = SObj("dataclass", "KS", (SFld("some_field", INT), SFld("other_field", Opt(INT), has_default=True, default=None, none_as_undefined=True), SFld("kept", INT, alias="z_z", no_override_alias=True, has_default=True, default=1)), class_aliaser="prefix")
+# snake_case names on fields of every serialization strategy (identity, transforming, optional, aggregate)
+AL = SObj(
+    "dataclass",
+    "AL",
+    (
+        SFld("plain_int", INT),
+        SFld("sub_obj", A),
+        SFld("the_color", P.COLOR),
+        SFld("with_alias", P.A2, alias="explicit_alias"),
+        SFld("sub_list", Coll("list", A), factory="list"),
+        SFld("opt_obj", Opt(A), has_default=True, default=None),
+        SFld("some_map", Mapp(P.NAME, INT), factory="dict"),
+        SFld("a_tuple", Tup((INT, STR)), has_default=True, default=(0, "")),
+    ),
+)
 TD3 = Obj("typeddict", "TD3", (Fld("some_key", INT), Fld("opt_key", Opt(STR), td_required=False)))
 
-SER_OBJECTS: List[TD] = [SM1, SM2, SM3, SM4, ANYF, SK, SK2, NU, UD, UD2, DF, RO, FS1, FS2, FS3, FS4, FSP, FSD, UB, DS, SM1S, CV1, RS, RS2, CV2, KS, TD3]
+SER_OBJECTS: List[TD] = [SM1, SM2, SM3, SM4, ANYF, SK, SK2, NU, UD, UD2, DF, RO, FS1, FS2, FS3, FS4, FSP, FSD, UB, DS, SM1S, CV1, RS, RS2, RSS, CV2, KS, AL, TD3]
 SER_EXTRA: List[TD] = [
     Coll("list", SM1),
     Opt(SK),
@@ -186,6 +203,7 @@ SER_EXTRA: List[TD] = [
     Coll("list", FSP),
     Opt(DS),
     Uni((RS, INT)),
+    Coll("list", RSS),
     Uni((Tup((INT, STR)), Tup((INT, STR, BOOL)))),
     Uni((Tup((INT,)), Tup((INT, A)), Coll("list", INT))),
     Coll("set", P.COLOR),
@@ -484,9 +502,23 @@ def _coerce_to(t: TD, x, gen: "Gen"):
 
 def describe(v) -> str:
     """a printable identification of a value, including the tracked field set"""
-    r = repr(v)
+    r = canon(v)
     fs = _tracked_deep(v)
     return r + (f" set={fs}" if fs else "")
+
+
+def canon(v) -> str:
+    """repr with the elements of sets in a fixed order (independent of string hashing)"""
+    if isinstance(v, (set, frozenset)):
+        body = ", ".join(sorted(canon(x) for x in v))
+        return ("{" + body + "}" if v else "set()") if isinstance(v, set) else "frozenset({" + body + "})"
+    if type(v) is list:
+        return "[" + ", ".join(canon(x) for x in v) + "]"
+    if type(v) is tuple:
+        return "(" + ", ".join(canon(x) for x in v) + ("," if len(v) == 1 else "") + ")"
+    if type(v) is dict:
+        return "{" + ", ".join(f"{canon(k)}: {canon(x)}" for k, x in v.items()) + "}"
+    return repr(v)
 
 
 def _tracked_deep(v, depth=0) -> str:
